@@ -22,7 +22,7 @@ from . import units_b_terms as T
 from . import units_b_adapter as A
 
 PID = "C06"
-DEVIATIONS = ["float_exponent_truncated", "numpy_left_operand"]      # named deviations of the spec; switched off when their findings are fixed
+DEVIATIONS = ["float_exponent_truncated", "npfloat32_exponent_truncated", "numpy_left_operand"]      # named deviations of the spec; switched off when their findings are fixed
 
 CFG = """CONSTANTS
   UInfo <- {uinfo}
